@@ -187,7 +187,7 @@ class Ctx(Partial):
                 payloads[i] = self._take(res)
             return payloads
         mp = multiprocessing.get_context("fork")
-        with mp.Pool(min(nproc, len(shards))) as pool:
+        with mp.Pool(min(nproc, len(shards)), initializer=_worker_init) as pool:
             jobs = [(i, pool.apply_async(_guarded, (func, shards[i]))) for i in order]
             for i, job in jobs:
                 res = job.get()
@@ -204,6 +204,22 @@ class Ctx(Partial):
         if part is not None:
             self.merge(part)
         return payload
+
+
+def _worker_init():
+    """Forked workers inherit permuta's process-wide multiprocessing.Lock, which lives in shared
+    memory: sixteen single-threaded workers would serialise on ONE semaphore.  Give every worker
+    its own lock of the same kind (the workers are independent processes exploring disjoint
+    shards; nothing is shared between them on purpose)."""
+    mod = sys.modules.get("permuta.perm_sets.permset")
+    av = getattr(mod, "Av", None) if mod is not None else None
+    lock = getattr(av, "_CACHE_LOCK", None) if av is not None else None
+    if lock is not None:
+        try:
+            av._CACHE_LOCK = type(lock)(ctx=multiprocessing.get_context("fork")) \
+                if type(lock).__module__.startswith("multiprocessing") else type(lock)()
+        except Exception:  # noqa
+            pass
 
 
 class _WorkerError:
